@@ -76,6 +76,9 @@ class JP_Abs(JumpInstruction):
                 BranchType.TrueBranch if self._cond else BranchType.UnconditionalBranch
             )
             info.add_branch(branch_type, dest)
+        else:
+            # JP r3 / JP (n): the destination comes from a register or memory.
+            info.add_branch(BranchType.UnresolvedBranch)
 
 
 class JP_Rel(JumpInstruction):
